@@ -45,6 +45,12 @@ def oracle(case: dict, obs: dict):
     if why is not None and "error" in obs:
         return ("driver-error", why), facts
     end = None
+    for ent in obs["log"]:      # an illegal request that got through shows up first
+        if ent[0] == "sched" and ent[3] == "acc" and isinstance(ent[2], int) and illegal(ent[1], ent[2]):
+            return ("illegal-scheduling-accepted", f"request {ent[1]} at clock {ent[2]}/4 was accepted"), facts
+    bad_clock = S.log_insane(obs)
+    if bad_clock:
+        return ("clock-not-an-exact-number", bad_clock), facts
     for c in case["cmds"]:
         if c[0] == "init":
             end = c[3]
@@ -121,10 +127,12 @@ def oracle(case: dict, obs: dict):
 
 def shrink(case, pred):
     """Greedy: drop commands (never the initialize), then actions, while pred(case) holds."""
+    import time as _t
     cur = json.loads(json.dumps(case))
     changed = True
     budget = 120
-    while changed and budget > 0:
+    deadline = _t.time() + 45
+    while changed and budget > 0 and _t.time() < deadline:
         changed = False
         for j in range(len(cur["cmds"]) - 1, 0, -1):
             cand = json.loads(json.dumps(cur))
@@ -143,7 +151,7 @@ def shrink(case, pred):
                 if pred(cand):
                     cur = cand; changed = True
                     break
-            if changed or budget <= 0:
+            if changed or budget <= 0 or _t.time() > deadline:
                 break
     return cur
 
@@ -184,7 +192,10 @@ def main(tier: str, pid=PID, gen=gen_case, oracle_fn=oracle, n_quick=4000, n_tho
     hist = {}
     first_bad = None
     for i, (c, o) in enumerate(zip(cases, obs)):
-        bad, facts = oracle_fn(c, o)
+        try:
+            bad, facts = oracle_fn(c, o)
+        except Exception as exc:  # noqa: an observation the oracle cannot even read is reported, never a crash
+            bad, facts = ("observation-not-judgeable", f"{type(exc).__name__}: {exc}; implementation returned {json.dumps(o)[:400]}"), {}
         for k, v in facts.items():
             if v is True:
                 hist[k] = hist.get(k, 0) + 1
